@@ -1,5 +1,8 @@
 import MLPE.Proofs.Safe
 import MLPE.Proofs.EngCore
+import MLPE.Proofs.Ledger
+import MLPE.Proofs.RecScope
+import MLPE.Proofs.PlainDemo
 
 /-!
 # C19 — a configured artifact store receives each node's final value exactly once
@@ -86,5 +89,55 @@ theorem C19_oneof_saved_value_is_final (P : Program) (val : Node → Option Val)
     (hsol : SolutionOne P val) (s : St) (log : List Obs) (h : Exec P s log) (n : Node) (v : Val)
     (hm : Obs.save n v ∈ log) : val n = some v ∧ v.isRecur = false ∧ v.isExc = false :=
   (safe_exec hone hsol h).2 _ hm
+
+
+/-! ### Exactly once, over a whole run (all programs, all schedules) — `Proofs/Ledger.lean` -/
+
+/-- number of `artifact_store.save(node_id = n, …)` calls in a log -/
+def savesOf (n : Node) (log : List Obs) : Nat := cnt (evS n) log
+/-- number of `on_node_complete(node_id = n, error = None)` in a log -/
+def successesOf (n : Node) (log : List Obs) : Nat := cnt (evO n) log
+/-- number of `on_node_start(node_id = n)` in a log -/
+def startsOf (n : Node) (log : List Obs) : Nat := cnt (evN n) log
+
+/-- **C19, every program, every schedule**: in every execution, each save of node `n` is paid for by an execution of `n`
+of its own that reported success: saves ≤ successful completions ≤ starts = the storage's invocation counter.  No task
+that merely waited for the node, no second scope that reaches it, no retry and no cancellation adds a save. -/
+theorem C19_each_save_has_its_own_successful_execution (P : Program) (s : St) (log : List Obs) (h : Exec P s log)
+    (n : Node) : savesOf n log ≤ successesOf n log ∧ successesOf n log ≤ startsOf n log ∧ startsOf n log = s.invCount n :=
+  ledger h n
+
+/-- with C04: at most one save per execution epoch of the node (one more than the number of times a restart of a
+recurrent subgraph has invalidated it) -/
+theorem C19_saves_bounded_by_invalidations (P : Program) (s : St) (log : List Obs) (h : Exec P s log) (n : Node) :
+    savesOf n log ≤ s.hideCount n + 1 := by
+  have a := ledger h n
+  have b := (coreInv_reach h.reach n).1
+  simp only [St.core] at b
+  simp only [savesOf]
+  omega
+
+/-- **at most once**: a node that belongs to no recurrent subgraph is saved at most once in a run, whoever requests it,
+however the requests interleave (launch orders admissible) -/
+theorem C19_at_most_one_save_outside_recurrent_subgraphs (P : Program) (s : St) (log : List Obs) (h : Exec P s log)
+    (n : Node) (hout : ¬ InRecScope P n) (hord : s.badOrd = false) : savesOf n log ≤ 1 := by
+  have a := ledger h n
+  have b : s.invCount n ≤ 1 := by
+    have h0 : s.hideCount n = 0 := by
+      cases hc : s.hideCount n with
+      | zero => rfl
+      | succ k =>
+        rcases hidden_in_rec_scope h.reach n (by omega) with hb | hr
+        · rw [hord] at hb; cases hb
+        · exact absurd hr hout
+    have := (coreInv_reach h.reach n).1
+    simp only [St.core] at this
+    omega
+  simp only [savesOf]
+  omega
+
+/-- non-vacuity: the demo schedule of the diamond is an execution in which node 0 is saved — exactly once -/
+example : (execLog demoDiamond init [] demoSchedule).map (fun r => (savesOf 0 r.2, startsOf 0 r.2, savesOf 3 r.2)) =
+    some (1, 1, 0) := by decide +kernel
 
 end MLPE.Eng
